@@ -132,3 +132,12 @@ Fixpoint replace_aux (fuel : nat) (from to s : str) : str :=
   end.
 Definition replace (from to s : str) : str :=
   match from with [] => s | _ => replace_aux (S (length s)) from to s end.
+
+(* str::trim_end_matches(c) for a single code point [c]: every trailing [c] is removed,
+   nothing else (in particular no blank is skipped).  Linear: two [frev]. *)
+Definition trim_end_matches_cp (c : N) (s : str) : str :=
+  frev (drop_while (fun x => x =? c) (frev s)).
+
+(* str::ends_with(c) for a single code point [c] *)
+Definition ends_with_cp (c : N) (s : str) : bool :=
+  match frev s with x :: _ => x =? c | [] => false end.
